@@ -284,6 +284,11 @@ def check(ctx: Ctx) -> None:
                         if name in probed:
                             known = dict(st_.cond[:e.ncond])
                             isnone = _tv(("cmp", "is", val, _N), known)
+                            if isnone is None and val[0] == "sym" and val[1] not in fe.params():
+                                # a module global: None only if some assignment of the script can store None
+                                assigned = [a.value for a in ast.walk(ss.tree) if isinstance(a, ast.Assign) and any(isinstance(t, ast.Name) and t.id == val[1] for t in a.targets)]
+                                if assigned and not any(isinstance(x, ast.Constant) and x.value is None for v in assigned for x in ast.walk(v)):
+                                    isnone = False
                             ob.site(fe, e.node, f"optional injection {name!r} is bound only to a real object", value_is_None=isnone)
                             if isnone is not False:
                                 ob.violation(fe, e.node, f"the socket server binds {name!r} in the namespace of the bootstrap fragment even when it has no value for it (None): the fragment's "
